@@ -2,6 +2,7 @@ import MdsVerif.Proofs.Lock
 import MdsVerif.Proofs.LockRT
 import MdsVerif.Model.Cache
 import MdsVerif.Gen.CacheLock
+import MdsVerif.Props.C08
 /-!
 # C09 — `cache.Cache` under concurrency: the locking discipline and what it implies
 
@@ -80,6 +81,131 @@ theorem C09_cache (cfg : Heapq.Cfg) (sizeOf : Nat → Int) (c0 : Cache.Cache)
     LogOK (cacheProg cfg sizeOf) c0 c.log ∧ (c.lock = none → c.shared = seqState (cacheProg cfg sizeOf) c0 c.log) :=
   let r := C09_lock_linearizable (cacheProg cfg sizeOf) c0 c h
   ⟨r.1, r.2.1⟩
+
+/-! ## corollaries for the cache instance: the C08 theorems hold of every concurrent execution
+
+The shared state of a reachable configuration with the lock free is the state of a *sequential* run of the
+C08 model (`C09_cache`), so everything C08 proves about sequential histories from the empty cache transfers
+to every interleaving. -/
+
+/-- the operations of the completed calls, in lock-acquisition order -/
+def logOps (log : List (Nat × Cache.Op × Option Cache.Out)) : List Cache.Op := log.map (·.2.1)
+
+theorem seqState_cache (cfg : Heapq.Cfg) (sizeOf : Nat → Int) (c0 : Cache.Cache)
+    (log : List (Nat × Cache.Op × Option Cache.Out)) :
+    seqState (cacheProg cfg sizeOf) c0 log = Proofs.Cache.exec cfg sizeOf c0 (logOps log) := by
+  induction log generalizing c0 with
+  | nil => rfl
+  | cons x log ih =>
+    obtain ⟨t, op, r⟩ := x
+    simp only [seqState, cacheProg_atomic, logOps, List.map_cons, Proofs.Cache.exec]
+    exact ih _
+
+theorem logOK_cache (cfg : Heapq.Cfg) (sizeOf : Nat → Int) (c0 : Cache.Cache)
+    (log : List (Nat × Cache.Op × Option Cache.Out)) (h : LogOK (cacheProg cfg sizeOf) c0 log) :
+    log.map (·.2.2) = (Proofs.Cache.outs cfg sizeOf c0 (logOps log)).map some := by
+  induction log generalizing c0 with
+  | nil => rfl
+  | cons x log ih =>
+    obtain ⟨t, op, r⟩ := x
+    obtain ⟨h1, h2⟩ := h
+    simp only [cacheProg_atomic] at h1 h2
+    simp only [List.map_cons, logOps, Proofs.Cache.outs, h1]
+    exact congrArg _ (ih _ h2)
+
+/-- **C09 ∘ C08, accounting under concurrency.**  In every configuration reachable from the empty cache
+`cache.New(limit, LRU())` by any interleaving of calls (any number of threads), whenever the lock is free:
+the shared cache is the state of the sequential run of the completed calls in lock-acquisition order; it
+satisfies the C08 invariant `Inv` (exact index, `count`, `size = Σ sizeOf`), in particular
+`0 ≤ size ≤ limit` and the limit is unchanged; the results of the completed calls are exactly the outputs of
+that sequential run, none of them a panic; and **every result handed back** to a caller (`ph t = done op r`)
+equals the sequential result at its place in the log.  For every heap configuration of the class `CfgOK`
+(pinned or repaired) and every `sizeOf ≥ 0`. -/
+theorem C09_size_le_limit (cfg : Heapq.Cfg) (ok : Proofs.Cache.CfgOK cfg) (sizeOf : Nat → Int)
+    (hs : ∀ v, 0 ≤ sizeOf v) (limit : Int) (hl : 0 < limit)
+    (c : Conf Cache.Cache (Option Cache.Out) Cache.Op (Option Cache.Out))
+    (h : Reach (cacheProg cfg sizeOf) (initConf (Props.C08.empty limit)) c) :
+    (c.lock = none →
+      c.shared = Proofs.Cache.exec cfg sizeOf (Props.C08.empty limit) (logOps c.log) ∧
+      Proofs.Cache.Inv sizeOf c.shared ∧ 0 ≤ c.shared.size ∧ c.shared.size ≤ limit ∧ c.shared.limit = limit) ∧
+    c.log.map (·.2.2) = (Proofs.Cache.outs cfg sizeOf (Props.C08.empty limit) (logOps c.log)).map some ∧
+    (∀ e ∈ c.log, ∀ m, e.2.2 ≠ some (.panic m)) ∧
+    (∀ t op r, c.ph t = .done op r → ∃ pre post, c.log = pre ++ (t, op, r) :: post ∧
+      r = some (Cache.step cfg sizeOf (Proofs.Cache.exec cfg sizeOf (Props.C08.empty limit) (logOps pre)) op).2) := by
+  obtain ⟨hlog, hfree, hres⟩ := C09_lock_linearizable (cacheProg cfg sizeOf) (Props.C08.empty limit) c h
+  obtain ⟨inv, hlim, hnp⟩ := Props.C08.C08_accounting cfg ok sizeOf hs limit hl (logOps c.log)
+  have houts := logOK_cache cfg sizeOf _ c.log hlog
+  refine ⟨fun hl0 => ?_, houts, ?_, ?_⟩
+  · have hsh : c.shared = Proofs.Cache.exec cfg sizeOf (Props.C08.empty limit) (logOps c.log) := by
+      rw [hfree hl0, seqState_cache]
+    rw [hsh]
+    refine ⟨rfl, inv, ?_, ?_, hlim⟩
+    · rw [inv.size]; exact Proofs.Cache.sizeSum_nonneg hs _
+    · have := inv.le; rw [hlim] at this; exact this
+  · intro e he m hm
+    have h1 : e.2.2 ∈ c.log.map (·.2.2) := List.mem_map.2 ⟨e, he, rfl⟩
+    rw [houts, hm] at h1
+    obtain ⟨o, ho, hoe⟩ := List.mem_map.1 h1
+    exact hnp o ho m (Option.some.inj hoe)
+  · intro t op r hd
+    obtain ⟨pre, post, hsplit⟩ := List.append_of_mem (hres t op r hd)
+    refine ⟨pre, post, hsplit, ?_⟩
+    have := logOK_at (cacheProg cfg sizeOf) (Props.C08.empty limit) pre post (t, op, r) (hsplit ▸ hlog)
+    simp only [cacheProg_atomic, seqState_cache] at this
+    exact this
+
+/-- **C09 ∘ C08, eviction callbacks under concurrency.**  In every reachable configuration with the lock
+free, the callback log followed by the entries still present is a permutation of everything that entered
+through a successful `Put` of the completed calls: **each departing entry was reported exactly once**, with
+its key and value, and nothing else was reported — whatever the interleaving. -/
+theorem C09_callbacks_once (cfg : Heapq.Cfg) (ok : Proofs.Cache.CfgOK cfg) (sizeOf : Nat → Int)
+    (hs : ∀ v, 0 ≤ sizeOf v) (limit : Int) (hl : 0 < limit)
+    (c : Conf Cache.Cache (Option Cache.Out) Cache.Op (Option Cache.Out))
+    (h : Reach (cacheProg cfg sizeOf) (initConf (Props.C08.empty limit)) c) (hfree : c.lock = none) :
+    (c.shared.evicted ++ Proofs.Cache.ents c.shared).Perm
+      (Proofs.Cache.entered cfg sizeOf (Props.C08.empty limit) (logOps c.log)) := by
+  have hsh : c.shared = Proofs.Cache.exec cfg sizeOf (Props.C08.empty limit) (logOps c.log) := by
+    rw [(C09_cache cfg sizeOf _ c h).2 hfree, seqState_cache]
+  rw [hsh]
+  exact (Props.C08.C08_callbacks cfg ok sizeOf hs).2 limit (logOps c.log) hl
+
+/-- both corollaries at the configuration the driver runs (regenerated from heapq.go) -/
+theorem C09_size_le_limit_current (sizeOf : Nat → Int) (hs : ∀ v, 0 ≤ sizeOf v) (limit : Int) (hl : 0 < limit)
+    (c : Conf Cache.Cache (Option Cache.Out) Cache.Op (Option Cache.Out))
+    (h : Reach (cacheProg Drv.C05.cfg sizeOf) (initConf (Props.C08.empty limit)) c) (hfree : c.lock = none) :
+    Proofs.Cache.Inv sizeOf c.shared ∧ 0 ≤ c.shared.size ∧ c.shared.size ≤ limit :=
+  let r := (C09_size_le_limit Drv.C05.cfg Props.C08.current_cfg_ok.1 sizeOf hs limit hl c h).1 hfree
+  ⟨r.2.1, r.2.2.1, r.2.2.2.1⟩
+
+/-- non-vacuity of the cache corollaries: two threads `Put` into a cache of limit 1 (the second invoked
+before the first acquires the lock); the reachable configuration has the lock free, two logged calls, one
+entry evicted and reported -/
+example : ∃ c : Conf Cache.Cache (Option Cache.Out) Cache.Op (Option Cache.Out),
+    Reach (cacheProg Props.C08.pinned (fun _ => 1)) (initConf (Props.C08.empty 1)) c ∧ c.lock = none ∧
+    logOps c.log = [.put 1 10, .put 2 20] ∧ c.shared.evicted = [(1, 10)] ∧ c.shared.size = 1 := by
+  let prog := cacheProg Props.C08.pinned (fun _ => 1)
+  let c0 : Conf Cache.Cache (Option Cache.Out) Cache.Op (Option Cache.Out) := initConf (Props.C08.empty 1)
+  let c1 : Conf _ _ _ _ := { c0 with ph := upd c0.ph 0 (.pending (.put 1 10)) }
+  let c2 : Conf _ _ _ _ := { c1 with ph := upd c1.ph 1 (.pending (.put 2 20)) }
+  let c3 : Conf _ _ _ _ := { c2 with lock := some 0, ph := upd c2.ph 0 (.inCS (.put 1 10) (prog (.put 1 10)).steps none) }
+  have r3 : Reach prog c0 c3 :=
+    .step (.step (.step .refl (Step.invoke c0 0 (.put 1 10) rfl)) (Step.invoke c1 1 (.put 2 20) rfl))
+      (Step.acquire c2 0 (.put 1 10) rfl rfl)
+  obtain ⟨m, hm⟩ : ∃ m, (prog (.put 1 10)).steps = [m] := ⟨_, rfl⟩
+  let c4 : Conf _ _ _ _ := { c3 with shared := (m c3.shared none).1, ph := upd c3.ph 0 (.inCS (.put 1 10) [] (m c3.shared none).2) }
+  have r4 : Reach prog c0 c4 := .step r3 (Step.micro c3 0 (.put 1 10) m [] none (by simp [c3, upd, hm]) rfl)
+  let c5 : Conf _ _ _ _ := { c4 with lock := none, ph := upd c4.ph 0 (.done (.put 1 10) ((prog (.put 1 10)).ret (m c3.shared none).2)), log := c4.log ++ [(0, .put 1 10, (prog (.put 1 10)).ret (m c3.shared none).2)] }
+  have r5 : Reach prog c0 c5 := .step r4 (Step.release c4 0 (.put 1 10) _ (by simp [c4, upd]) rfl)
+  let c6 : Conf _ _ _ _ := { c5 with lock := some 1, ph := upd c5.ph 1 (.inCS (.put 2 20) (prog (.put 2 20)).steps none) }
+  have r6 : Reach prog c0 c6 := .step r5 (Step.acquire c5 1 (.put 2 20) (by simp [c5, c4, c3, c2, upd]) rfl)
+  obtain ⟨m', hm'⟩ : ∃ m', (prog (.put 2 20)).steps = [m'] := ⟨_, rfl⟩
+  let c7 : Conf _ _ _ _ := { c6 with shared := (m' c6.shared none).1, ph := upd c6.ph 1 (.inCS (.put 2 20) [] (m' c6.shared none).2) }
+  have r7 : Reach prog c0 c7 := .step r6 (Step.micro c6 1 (.put 2 20) m' [] none (by simp [c6, upd, hm']) rfl)
+  let c8 : Conf _ _ _ _ := { c7 with lock := none, ph := upd c7.ph 1 (.done (.put 2 20) ((prog (.put 2 20)).ret (m' c6.shared none).2)), log := c7.log ++ [(1, .put 2 20, (prog (.put 2 20)).ret (m' c6.shared none).2)] }
+  have r8 : Reach prog c0 c8 := .step r7 (Step.release c7 1 (.put 2 20) _ (by simp [c7, upd]) rfl)
+  refine ⟨c8, r8, rfl, rfl, ?_, ?_⟩
+  · cases hm; cases hm'; decide
+  · cases hm; cases hm'; decide
 
 /-! non-vacuity: two threads, interleaved invoke/acquire/micro/release steps reach a configuration with a
 non-empty log -/
